@@ -37,6 +37,7 @@
 /*@unit
 name: parse.bool.pp0rm0
 tier: B
+native: self
 define: TOK_BOOL, VB_ARGC=3, VB_PRE=0, VB_RM=0, CLS_WANT=0
 src: options.c
 bound: argc <= 3 (all 110 vectors of 1..2 words over the 10-token family BOOL), 9-entry table, setting pre-parse=0 remove-args=0, class 0; boolean/integer initial values symbolic
@@ -49,6 +50,7 @@ mem: 12
 /*@unit
 name: parse.bool.pp0rm1
 tier: B
+native: self
 define: TOK_BOOL, VB_ARGC=3, VB_PRE=0, VB_RM=1, CLS_WANT=0
 src: options.c
 bound: argc <= 3 (all 110 vectors of 1..2 words over the 10-token family BOOL), 9-entry table, setting pre-parse=0 remove-args=1, class 0; boolean/integer initial values symbolic
@@ -61,6 +63,7 @@ mem: 12
 /*@unit
 name: parse.bool.pp1rm0
 tier: B
+native: self
 define: TOK_BOOL, VB_ARGC=3, VB_PRE=1, VB_RM=0, CLS_WANT=0
 src: options.c
 bound: argc <= 3 (all 110 vectors of 1..2 words over the 10-token family BOOL), 9-entry table, setting pre-parse=1 remove-args=0, class 0; boolean/integer initial values symbolic
@@ -73,6 +76,7 @@ mem: 12
 /*@unit
 name: parse.bool.pp1rm1
 tier: B
+native: self
 define: TOK_BOOL, VB_ARGC=3, VB_PRE=1, VB_RM=1, CLS_WANT=0
 src: options.c
 bound: argc <= 3 (all 110 vectors of 1..2 words over the 10-token family BOOL), 9-entry table, setting pre-parse=1 remove-args=1, class 0; boolean/integer initial values symbolic
@@ -85,6 +89,7 @@ mem: 12
 /*@unit
 name: parse.value.pp0rm0
 tier: B
+native: self
 define: TOK_VALUE, VB_ARGC=3, VB_PRE=0, VB_RM=0, CLS_WANT=0
 src: options.c
 bound: argc <= 3 (all 110 vectors of 1..2 words over the 10-token family VALUE), 9-entry table, setting pre-parse=0 remove-args=0, class 0; boolean/integer initial values symbolic
@@ -97,6 +102,7 @@ mem: 12
 /*@unit
 name: parse.value.pp0rm1
 tier: B
+native: self
 define: TOK_VALUE, VB_ARGC=3, VB_PRE=0, VB_RM=1, CLS_WANT=0
 src: options.c
 bound: argc <= 3 (all 110 vectors of 1..2 words over the 10-token family VALUE), 9-entry table, setting pre-parse=0 remove-args=1, class 0; boolean/integer initial values symbolic
@@ -109,6 +115,7 @@ mem: 12
 /*@unit
 name: parse.value.pp1rm0
 tier: B
+native: self
 define: TOK_VALUE, VB_ARGC=3, VB_PRE=1, VB_RM=0, CLS_WANT=0
 src: options.c
 bound: argc <= 3 (all 110 vectors of 1..2 words over the 10-token family VALUE), 9-entry table, setting pre-parse=1 remove-args=0, class 0; boolean/integer initial values symbolic
@@ -121,6 +128,7 @@ mem: 12
 /*@unit
 name: parse.value.pp1rm1
 tier: B
+native: self
 define: TOK_VALUE, VB_ARGC=3, VB_PRE=1, VB_RM=1, CLS_WANT=0
 src: options.c
 bound: argc <= 3 (all 110 vectors of 1..2 words over the 10-token family VALUE), 9-entry table, setting pre-parse=1 remove-args=1, class 0; boolean/integer initial values symbolic
@@ -133,6 +141,7 @@ mem: 12
 /*@unit
 name: parse.list.pp0rm0
 tier: B
+native: self
 define: TOK_LIST, VB_ARGC=3, VB_PRE=0, VB_RM=0, CLS_WANT=0
 src: options.c
 bound: argc <= 3 (all 110 vectors of 1..2 words over the 10-token family LIST), 9-entry table, setting pre-parse=0 remove-args=0, class 0; boolean/integer initial values symbolic
@@ -145,6 +154,7 @@ mem: 12
 /*@unit
 name: parse.list.pp0rm1
 tier: B
+native: self
 define: TOK_LIST, VB_ARGC=3, VB_PRE=0, VB_RM=1, CLS_WANT=0
 src: options.c
 bound: argc <= 3 (all 110 vectors of 1..2 words over the 10-token family LIST), 9-entry table, setting pre-parse=0 remove-args=1, class 0; boolean/integer initial values symbolic
@@ -157,6 +167,7 @@ mem: 12
 /*@unit
 name: parse.list.pp1rm0
 tier: B
+native: self
 define: TOK_LIST, VB_ARGC=3, VB_PRE=1, VB_RM=0, CLS_WANT=0
 src: options.c
 bound: argc <= 3 (all 110 vectors of 1..2 words over the 10-token family LIST), 9-entry table, setting pre-parse=1 remove-args=0, class 0; boolean/integer initial values symbolic
@@ -169,6 +180,7 @@ mem: 12
 /*@unit
 name: parse.list.pp1rm1
 tier: B
+native: self
 define: TOK_LIST, VB_ARGC=3, VB_PRE=1, VB_RM=1, CLS_WANT=0
 src: options.c
 bound: argc <= 3 (all 110 vectors of 1..2 words over the 10-token family LIST), 9-entry table, setting pre-parse=1 remove-args=1, class 0; boolean/integer initial values symbolic
@@ -181,6 +193,7 @@ mem: 12
 /*@unit
 name: parse.unknown.pp0rm0
 tier: B
+native: self
 define: TOK_UNK, VB_ARGC=3, VB_PRE=0, VB_RM=0, CLS_WANT=CLS_UNKNOWN
 src: options.c
 bound: argc <= 3 (all 110 vectors of 1..2 words over the 10-token family UNK), 9-entry table, setting pre-parse=0 remove-args=0, class CLS_UNKNOWN; boolean/integer initial values symbolic
@@ -193,6 +206,7 @@ mem: 12
 /*@unit
 name: parse.unknown.pp0rm1
 tier: B
+native: self
 define: TOK_UNK, VB_ARGC=3, VB_PRE=0, VB_RM=1, CLS_WANT=CLS_UNKNOWN
 src: options.c
 bound: argc <= 3 (all 110 vectors of 1..2 words over the 10-token family UNK), 9-entry table, setting pre-parse=0 remove-args=1, class CLS_UNKNOWN; boolean/integer initial values symbolic
@@ -205,6 +219,7 @@ mem: 12
 /*@unit
 name: parse.unknown.pp1rm0
 tier: B
+native: self
 define: TOK_UNK, VB_ARGC=3, VB_PRE=1, VB_RM=0, CLS_WANT=CLS_UNKNOWN
 src: options.c
 bound: argc <= 3 (all 110 vectors of 1..2 words over the 10-token family UNK), 9-entry table, setting pre-parse=1 remove-args=0, class CLS_UNKNOWN; boolean/integer initial values symbolic
@@ -217,6 +232,7 @@ mem: 12
 /*@unit
 name: parse.unknown.pp1rm1
 tier: B
+native: self
 define: TOK_UNK, VB_ARGC=3, VB_PRE=1, VB_RM=1, CLS_WANT=CLS_UNKNOWN
 src: options.c
 bound: argc <= 3 (all 110 vectors of 1..2 words over the 10-token family UNK), 9-entry table, setting pre-parse=1 remove-args=1, class CLS_UNKNOWN; boolean/integer initial values symbolic
@@ -229,6 +245,7 @@ mem: 12
 /*@unit
 name: parse.missing.pp0rm0
 tier: B
+native: self
 define: TOK_MISS, VB_ARGC=3, VB_PRE=0, VB_RM=0, CLS_WANT=CLS_MISSING
 src: options.c
 bound: argc <= 3 (all 42 vectors of 1..2 words over the 6-token family MISS), 9-entry table, setting pre-parse=0 remove-args=0, class CLS_MISSING; boolean/integer initial values symbolic
@@ -241,6 +258,7 @@ mem: 12
 /*@unit
 name: parse.missing.pp0rm1
 tier: B
+native: self
 define: TOK_MISS, VB_ARGC=3, VB_PRE=0, VB_RM=1, CLS_WANT=CLS_MISSING
 src: options.c
 bound: argc <= 3 (all 42 vectors of 1..2 words over the 6-token family MISS), 9-entry table, setting pre-parse=0 remove-args=1, class CLS_MISSING; boolean/integer initial values symbolic
@@ -253,6 +271,7 @@ mem: 12
 /*@unit
 name: parse.missing.pp1rm0
 tier: B
+native: self
 define: TOK_MISS, VB_ARGC=3, VB_PRE=1, VB_RM=0, CLS_WANT=CLS_MISSING
 src: options.c
 bound: argc <= 3 (all 42 vectors of 1..2 words over the 6-token family MISS), 9-entry table, setting pre-parse=1 remove-args=0, class CLS_MISSING; boolean/integer initial values symbolic
@@ -265,6 +284,7 @@ mem: 12
 /*@unit
 name: parse.missing.pp1rm1
 tier: B
+native: self
 define: TOK_MISS, VB_ARGC=3, VB_PRE=1, VB_RM=1, CLS_WANT=CLS_MISSING
 src: options.c
 bound: argc <= 3 (all 42 vectors of 1..2 words over the 6-token family MISS), 9-entry table, setting pre-parse=1 remove-args=1, class CLS_MISSING; boolean/integer initial values symbolic
@@ -277,6 +297,7 @@ mem: 12
 /*@unit
 name: parse.shortbool_val.pp0rm0
 tier: B
+native: self
 define: TOK_SBV, VB_ARGC=3, VB_PRE=0, VB_RM=0, CLS_WANT=0
 src: options.c
 bound: argc <= 3 (all 42 vectors of 1..2 words over the 6-token family SBV), 9-entry table, setting pre-parse=0 remove-args=0, class 0; boolean/integer initial values symbolic
@@ -289,6 +310,7 @@ mem: 12
 /*@unit
 name: parse.shortbool_val.pp0rm1
 tier: B
+native: self
 define: TOK_SBV, VB_ARGC=3, VB_PRE=0, VB_RM=1, CLS_WANT=0
 src: options.c
 bound: argc <= 3 (all 42 vectors of 1..2 words over the 6-token family SBV), 9-entry table, setting pre-parse=0 remove-args=1, class 0; boolean/integer initial values symbolic
@@ -301,6 +323,7 @@ mem: 12
 /*@unit
 name: parse.shortbool_val.pp1rm0
 tier: B
+native: self
 define: TOK_SBV, VB_ARGC=3, VB_PRE=1, VB_RM=0, CLS_WANT=0
 src: options.c
 bound: argc <= 3 (all 42 vectors of 1..2 words over the 6-token family SBV), 9-entry table, setting pre-parse=1 remove-args=0, class 0; boolean/integer initial values symbolic
@@ -313,6 +336,7 @@ mem: 12
 /*@unit
 name: parse.shortbool_val.pp1rm1
 tier: B
+native: self
 define: TOK_SBV, VB_ARGC=3, VB_PRE=1, VB_RM=1, CLS_WANT=0
 src: options.c
 bound: argc <= 3 (all 42 vectors of 1..2 words over the 6-token family SBV), 9-entry table, setting pre-parse=1 remove-args=1, class 0; boolean/integer initial values symbolic
@@ -325,6 +349,7 @@ mem: 12
 /*@unit
 name: parse.args_attached.pp0rm0
 tier: B
+native: self
 define: TOK_ATT, VB_ARGC=3, VB_PRE=0, VB_RM=0, CLS_WANT=0
 src: options.c
 bound: argc <= 3 (all 20 vectors of 1..2 words over the 4-token family ATT), 9-entry table, setting pre-parse=0 remove-args=0, class 0; boolean/integer initial values symbolic
@@ -337,6 +362,7 @@ mem: 12
 /*@unit
 name: parse.args_attached.pp0rm1
 tier: B
+native: self
 define: TOK_ATT, VB_ARGC=3, VB_PRE=0, VB_RM=1, CLS_WANT=0
 src: options.c
 bound: argc <= 3 (all 20 vectors of 1..2 words over the 4-token family ATT), 9-entry table, setting pre-parse=0 remove-args=1, class 0; boolean/integer initial values symbolic
@@ -349,6 +375,7 @@ mem: 12
 /*@unit
 name: parse.args_attached.pp1rm0
 tier: B
+native: self
 define: TOK_ATT, VB_ARGC=3, VB_PRE=1, VB_RM=0, CLS_WANT=0
 src: options.c
 bound: argc <= 3 (all 20 vectors of 1..2 words over the 4-token family ATT), 9-entry table, setting pre-parse=1 remove-args=0, class 0; boolean/integer initial values symbolic
@@ -361,6 +388,7 @@ mem: 12
 /*@unit
 name: parse.args_attached.pp1rm1
 tier: B
+native: self
 define: TOK_ATT, VB_ARGC=3, VB_PRE=1, VB_RM=1, CLS_WANT=0
 src: options.c
 bound: argc <= 3 (all 20 vectors of 1..2 words over the 4-token family ATT), 9-entry table, setting pre-parse=1 remove-args=1, class 0; boolean/integer initial values symbolic
@@ -373,6 +401,7 @@ mem: 12
 /*@unit
 name: parse.args_eq_empty.pp0rm0
 tier: B
+native: self
 define: TOK_EQE, VB_ARGC=3, VB_PRE=0, VB_RM=0, CLS_WANT=0
 src: options.c
 bound: argc <= 3 (all 12 vectors of 1..2 words over the 3-token family EQE), 9-entry table, setting pre-parse=0 remove-args=0, class 0; boolean/integer initial values symbolic
@@ -385,6 +414,7 @@ mem: 12
 /*@unit
 name: parse.args_eq_empty.pp0rm1
 tier: B
+native: self
 define: TOK_EQE, VB_ARGC=3, VB_PRE=0, VB_RM=1, CLS_WANT=0
 src: options.c
 bound: argc <= 3 (all 12 vectors of 1..2 words over the 3-token family EQE), 9-entry table, setting pre-parse=0 remove-args=1, class 0; boolean/integer initial values symbolic
@@ -397,6 +427,7 @@ mem: 12
 /*@unit
 name: parse.args_eq_empty.pp1rm0
 tier: B
+native: self
 define: TOK_EQE, VB_ARGC=3, VB_PRE=1, VB_RM=0, CLS_WANT=0
 src: options.c
 bound: argc <= 3 (all 12 vectors of 1..2 words over the 3-token family EQE), 9-entry table, setting pre-parse=1 remove-args=0, class 0; boolean/integer initial values symbolic
@@ -409,6 +440,7 @@ mem: 12
 /*@unit
 name: parse.args_eq_empty.pp1rm1
 tier: B
+native: self
 define: TOK_EQE, VB_ARGC=3, VB_PRE=1, VB_RM=1, CLS_WANT=0
 src: options.c
 bound: argc <= 3 (all 12 vectors of 1..2 words over the 3-token family EQE), 9-entry table, setting pre-parse=1 remove-args=1, class 0; boolean/integer initial values symbolic
@@ -421,6 +453,7 @@ mem: 12
 /*@unit
 name: parse.pp_list.pp0rm0
 tier: B
+native: self
 define: TOK_PPL, VB_ARGC=3, VB_PRE=0, VB_RM=0, CLS_WANT=0
 src: options.c
 bound: argc <= 3 (all 30 vectors of 1..2 words over the 5-token family PPL), 9-entry table, setting pre-parse=0 remove-args=0, class 0; boolean/integer initial values symbolic
@@ -433,6 +466,7 @@ mem: 12
 /*@unit
 name: parse.pp_list.pp0rm1
 tier: B
+native: self
 define: TOK_PPL, VB_ARGC=3, VB_PRE=0, VB_RM=1, CLS_WANT=0
 src: options.c
 bound: argc <= 3 (all 30 vectors of 1..2 words over the 5-token family PPL), 9-entry table, setting pre-parse=0 remove-args=1, class 0; boolean/integer initial values symbolic
@@ -445,6 +479,7 @@ mem: 12
 /*@unit
 name: parse.pp_list.pp1rm0
 tier: B
+native: self
 define: TOK_PPL, VB_ARGC=3, VB_PRE=1, VB_RM=0, CLS_WANT=0
 src: options.c
 bound: argc <= 3 (all 30 vectors of 1..2 words over the 5-token family PPL), 9-entry table, setting pre-parse=1 remove-args=0, class 0; boolean/integer initial values symbolic
@@ -457,6 +492,7 @@ mem: 12
 /*@unit
 name: parse.pp_list.pp1rm1
 tier: B
+native: self
 define: TOK_PPL, VB_ARGC=3, VB_PRE=1, VB_RM=1, CLS_WANT=0
 src: options.c
 bound: argc <= 3 (all 30 vectors of 1..2 words over the 5-token family PPL), 9-entry table, setting pre-parse=1 remove-args=1, class 0; boolean/integer initial values symbolic
@@ -469,6 +505,7 @@ mem: 12
 /*@unit
 name: parse.lone_dash.pp0rm0
 tier: B
+native: self
 define: TOK_DASH, VB_ARGC=3, VB_PRE=0, VB_RM=0, CLS_WANT=0
 src: options.c
 bound: argc <= 3 (all 30 vectors of 1..2 words over the 5-token family DASH), 9-entry table, setting pre-parse=0 remove-args=0, class 0; boolean/integer initial values symbolic
@@ -481,6 +518,7 @@ mem: 12
 /*@unit
 name: parse.lone_dash.pp0rm1
 tier: B
+native: self
 define: TOK_DASH, VB_ARGC=3, VB_PRE=0, VB_RM=1, CLS_WANT=0
 src: options.c
 bound: argc <= 3 (all 30 vectors of 1..2 words over the 5-token family DASH), 9-entry table, setting pre-parse=0 remove-args=1, class 0; boolean/integer initial values symbolic
@@ -493,6 +531,7 @@ mem: 12
 /*@unit
 name: parse.lone_dash.pp1rm0
 tier: B
+native: self
 define: TOK_DASH, VB_ARGC=3, VB_PRE=1, VB_RM=0, CLS_WANT=0
 src: options.c
 bound: argc <= 3 (all 30 vectors of 1..2 words over the 5-token family DASH), 9-entry table, setting pre-parse=1 remove-args=0, class 0; boolean/integer initial values symbolic
@@ -505,6 +544,7 @@ mem: 12
 /*@unit
 name: parse.lone_dash.pp1rm1
 tier: B
+native: self
 define: TOK_DASH, VB_ARGC=3, VB_PRE=1, VB_RM=1, CLS_WANT=0
 src: options.c
 bound: argc <= 3 (all 30 vectors of 1..2 words over the 5-token family DASH), 9-entry table, setting pre-parse=1 remove-args=1, class 0; boolean/integer initial values symbolic
@@ -517,6 +557,7 @@ mem: 12
 /*@unit
 name: parse4.bool.pp0rm0
 tier: B
+native: self
 define: TOK_BOOL, VB_ARGC=4, VB_PRE=0, VB_RM=0, CLS_WANT=0
 src: options.c
 bound: argc <= 4 (all 1110 vectors of 1..3 words over the 10-token family BOOL), 9-entry table, setting pre-parse=0 remove-args=0, class 0; boolean/integer initial values symbolic
@@ -530,6 +571,7 @@ quick: no
 /*@unit
 name: parse4.bool.pp0rm1
 tier: B
+native: self
 define: TOK_BOOL, VB_ARGC=4, VB_PRE=0, VB_RM=1, CLS_WANT=0
 src: options.c
 bound: argc <= 4 (all 1110 vectors of 1..3 words over the 10-token family BOOL), 9-entry table, setting pre-parse=0 remove-args=1, class 0; boolean/integer initial values symbolic
@@ -543,6 +585,7 @@ quick: no
 /*@unit
 name: parse4.bool.pp1rm0
 tier: B
+native: self
 define: TOK_BOOL, VB_ARGC=4, VB_PRE=1, VB_RM=0, CLS_WANT=0
 src: options.c
 bound: argc <= 4 (all 1110 vectors of 1..3 words over the 10-token family BOOL), 9-entry table, setting pre-parse=1 remove-args=0, class 0; boolean/integer initial values symbolic
@@ -556,6 +599,7 @@ quick: no
 /*@unit
 name: parse4.bool.pp1rm1
 tier: B
+native: self
 define: TOK_BOOL, VB_ARGC=4, VB_PRE=1, VB_RM=1, CLS_WANT=0
 src: options.c
 bound: argc <= 4 (all 1110 vectors of 1..3 words over the 10-token family BOOL), 9-entry table, setting pre-parse=1 remove-args=1, class 0; boolean/integer initial values symbolic
@@ -569,6 +613,7 @@ quick: no
 /*@unit
 name: parse4.value.pp0rm0
 tier: B
+native: self
 define: TOK_VALUE, VB_ARGC=4, VB_PRE=0, VB_RM=0, CLS_WANT=0
 src: options.c
 bound: argc <= 4 (all 1110 vectors of 1..3 words over the 10-token family VALUE), 9-entry table, setting pre-parse=0 remove-args=0, class 0; boolean/integer initial values symbolic
@@ -582,6 +627,7 @@ quick: no
 /*@unit
 name: parse4.value.pp0rm1
 tier: B
+native: self
 define: TOK_VALUE, VB_ARGC=4, VB_PRE=0, VB_RM=1, CLS_WANT=0
 src: options.c
 bound: argc <= 4 (all 1110 vectors of 1..3 words over the 10-token family VALUE), 9-entry table, setting pre-parse=0 remove-args=1, class 0; boolean/integer initial values symbolic
@@ -595,6 +641,7 @@ quick: no
 /*@unit
 name: parse4.value.pp1rm0
 tier: B
+native: self
 define: TOK_VALUE, VB_ARGC=4, VB_PRE=1, VB_RM=0, CLS_WANT=0
 src: options.c
 bound: argc <= 4 (all 1110 vectors of 1..3 words over the 10-token family VALUE), 9-entry table, setting pre-parse=1 remove-args=0, class 0; boolean/integer initial values symbolic
@@ -608,6 +655,7 @@ quick: no
 /*@unit
 name: parse4.value.pp1rm1
 tier: B
+native: self
 define: TOK_VALUE, VB_ARGC=4, VB_PRE=1, VB_RM=1, CLS_WANT=0
 src: options.c
 bound: argc <= 4 (all 1110 vectors of 1..3 words over the 10-token family VALUE), 9-entry table, setting pre-parse=1 remove-args=1, class 0; boolean/integer initial values symbolic
@@ -621,6 +669,7 @@ quick: no
 /*@unit
 name: parse4.list.pp0rm0
 tier: B
+native: self
 define: TOK_LIST, VB_ARGC=4, VB_PRE=0, VB_RM=0, CLS_WANT=0
 src: options.c
 bound: argc <= 4 (all 1110 vectors of 1..3 words over the 10-token family LIST), 9-entry table, setting pre-parse=0 remove-args=0, class 0; boolean/integer initial values symbolic
@@ -634,6 +683,7 @@ quick: no
 /*@unit
 name: parse4.list.pp0rm1
 tier: B
+native: self
 define: TOK_LIST, VB_ARGC=4, VB_PRE=0, VB_RM=1, CLS_WANT=0
 src: options.c
 bound: argc <= 4 (all 1110 vectors of 1..3 words over the 10-token family LIST), 9-entry table, setting pre-parse=0 remove-args=1, class 0; boolean/integer initial values symbolic
@@ -647,6 +697,7 @@ quick: no
 /*@unit
 name: parse4.list.pp1rm0
 tier: B
+native: self
 define: TOK_LIST, VB_ARGC=4, VB_PRE=1, VB_RM=0, CLS_WANT=0
 src: options.c
 bound: argc <= 4 (all 1110 vectors of 1..3 words over the 10-token family LIST), 9-entry table, setting pre-parse=1 remove-args=0, class 0; boolean/integer initial values symbolic
@@ -660,6 +711,7 @@ quick: no
 /*@unit
 name: parse4.list.pp1rm1
 tier: B
+native: self
 define: TOK_LIST, VB_ARGC=4, VB_PRE=1, VB_RM=1, CLS_WANT=0
 src: options.c
 bound: argc <= 4 (all 1110 vectors of 1..3 words over the 10-token family LIST), 9-entry table, setting pre-parse=1 remove-args=1, class 0; boolean/integer initial values symbolic
@@ -677,10 +729,14 @@ quick: no
 #define VOPT_CONCRETE
 #include "vprelude.h"
 #include "env_options.h"
-#define strtol vopt_strtol
-#include "src/options.c"
+#ifndef VERIF_NATIVE
+# define strtol vopt_strtol            /* cbmc: decimal model; native replay: the real strtol */
+#endif
+#include "rawsrc/options.c"            /* the real code, un-annotated copy (no loop contracts needed here) */
 #undef strtol
-#if defined(TOK_LIST) || defined(TOK_EQE)
+#ifdef VERIF_NATIVE
+/* native replay: the real strings.c is linked */
+#elif defined(TOK_LIST) || defined(TOK_EQE)
 /* the real word utilities, un-annotated (strings.c is not in this unit's `src:` list, so this resolves
  * to <repo>/src/strings.c; the loop-contract annotations other units inject are not wanted here) */
 # include "src/strings.c"
@@ -848,7 +904,7 @@ static char *const TOK[] = {
 #elif defined(TOK_LIST)    /* list and abstract options */
     "f", "g", "-a", "-e", "--e", "--e=f", "-t", "-tf", "--t", "--t=f",
 #elif defined(TOK_UNK)     /* unknown options, option-looking abstract values, empty long name */
-    "f", "-a", "-x", "-ax", "-xa", "--x", "--", "-t", "--t", "--x=f",
+    "f", "-a", "-x", "-ax", "--a.f", "--x", "--", "-t", "--t", "--x=f",
 #elif defined(TOK_MISS)    /* an option that needs a value as the last word */
     "f", "-a", "-i", "--s", "-e", "-ai",
 #elif defined(TOK_SBV)     /* short boolean followed by a boolean word */
@@ -891,6 +947,9 @@ static void one_vector(int argc)
     ref_parse(argc, av0);
     if (r_cls != (CLS_WANT)) return;          /* another unit's class */
     w_nvec++;
+#ifdef VERIF_NATIVE
+    { int q; fprintf(stderr, "vector:"); for (q = 1; q < argc; q++) fprintf(stderr, " %s", av[q]); fprintf(stderr, "\n"); }   /* the last one printed is the failing one */
+#endif
 
     spifopt_parse(argc, av);
 
@@ -946,8 +1005,8 @@ void harness(void)
     long v, total;
     vopt_env_init();
     libast_debug_level = 0;      /* debug output off (D_OPTIONS only prints; C20 covers the macros) */
-    f0 = nondet_ulong(); __CPROVER_assume(f0 <= 0xffffffffUL);
-    i0 = nondet_int();
+    f0 = VND(ulong, f0); __CPROVER_assume(f0 <= 0xffffffffUL);
+    i0 = VND(int, i0);
     w_nvec = 0;
     for (argc = 2; argc <= VB_ARGC; argc++) {
         total = 1;
